@@ -29,13 +29,16 @@ LOADC = 48                     # load_context, conforming description with TLPar
 LOADA = 49                     # conforming, AcquisitionStart / AcquisitionStop carry <pIsAvailable> backed by device registers
 LOADH = 50                     # TLParamsLocked is a host-side variable (<Value>0</Value>), AcquisitionStop <CommandValue>0
 LOADZ = 51                     # conforming (TLParamsLocked in its register), AcquisitionStop <CommandValue>0
-LAST_LOAD = 51
+LOADM = 52                     # conforming, TLParamsLocked is a <MaskedIntReg> (bit 0 of its 4-byte register)
+LAST_LOAD = 52
+HOLD, DROP = 81, 82            # the application takes / drops a second handle of the camera's (sharable) context
 BANK = 60                      # BANK + k: select slot k of the register bank and read it through params_ctxt
 USER = 70                      # USER + v: params write UserVar := v (a host-side variable of the context, <Value>1</Value>)
 NSLOT = 4
-NMEM = 6                       # words of the device memory the environment may change: 0..3 the bank, 4 / 5 the
+NMEM = 7                       # words of the device memory the environment may change: 0..3 the bank, 4 / 5 the
 AVAIL_START, AVAIL_STOP = 4, 5  # availability registers of AcquisitionStart / AcquisitionStop (description LOADA)
 A_START, A_STOP = 0x1004, 0x1008
+TL_OTHER = 6                   # word 6: the bits 1..7 of the TLParamsLocked register (another feature's)
 
 
 def poke(k, v):
@@ -53,7 +56,7 @@ E_ASTART0, E_ASTOP0 = 19, 18              # write of 0 to the AcquisitionStart /
 BANK_READS = set(range(E_BANK, E_BANK + NSLOT))
 AVAIL_READS = {E_BANK + AVAIL_START, E_BANK + AVAIL_STOP}
 REG_OPS = {E_TL1, E_TL0, E_ASTART, E_ASTOP, E_ASTART0, E_ASTOP0, E_READ, E_COPY1, E_COPY0} | BANK_READS | AVAIL_READS
-FOCUS_OPS = {E_COPY1, E_COPY0} | BANK_READS   # failure points that get every fault class in the focus families
+FOCUS_OPS = {E_COPY1, E_COPY0, E_READ} | BANK_READS   # failure points that get every fault class in the focus families
 
 F_LOOP, F_CTXT, F_C_TL, F_C_START, F_C_STOP, F_COPEN, F_SOPEN, F_ENABLED, F_LOCKED, F_ACQ = \
     1, 2, 4, 8, 16, 32, 64, 128, 256, 512
@@ -63,11 +66,12 @@ F_MIRROR, F_C_COPY, F_C_BANK = 1024, 2048, 4096 * (2 ** NSLOT - 1)   # mirror re
 NCLASS = 8      # fault classes of rust/h_camera (0 Io 1 Timeout 2 Disconnected 3 Busy 4 NotOpened 5 InvalidData ...)
 
 
-def mk(calls, plan=()):
-    """plan: (call index, operation index, fault class) triples"""
+def mk(calls, plan=(), shared=False):
+    """plan: (call index, operation index, fault class) triples; shared: the camera is instantiated with the sharable
+    context type SharedDefaultGenApiCtxt (harness line `cams`) - the model is the same"""
     flat = [x for p in plan for x in p]
     toks = [len(calls)] + list(calls) + [len(plan)] + flat
-    return Case("cam", toks, {"calls": list(calls), "plan": [tuple(p) for p in plan]},
+    return Case("cams" if shared else "cam", toks, {"calls": list(calls), "plan": [tuple(p) for p in plan], "shared": shared},
                 term="cam_case true %s %s" % (zlist(calls), zlist(flat)))
 
 
@@ -77,7 +81,7 @@ def case_from_line(line):
     calls = t[1:1 + n]
     m = t[1 + n]
     flat = t[2 + n:2 + n + 3 * m]
-    return mk(calls, [tuple(flat[3 * i:3 * i + 3]) for i in range(m)])
+    return mk(calls, [tuple(flat[3 * i:3 * i + 3]) for i in range(m)], shared=line.split()[0] == "cams")
 
 
 def parse(out, ncalls):
@@ -665,6 +669,47 @@ def value_sessions():
     return out
 
 
+def shared_sessions(quick):
+    """Sessions for the camera instantiated with the SHARABLE context (SharedDefaultGenApiCtxt), the application
+    taking a second handle of the context (HOLD) at some point and keeping it across the close or dropping it before:
+    close must drop the cached register values whoever else holds the context.  Shapes as in bank_sessions: slots get
+    values, some are read (cached), [hold], close / stop+close / close while streaming, the device's slots change,
+    open, reads in every order of up to two; also the hold taken before the load (it is a handle of ANOTHER context
+    then), dropped again before the close, taken twice."""
+    slots = (0, 1, 2)
+    v0 = [poke(k, 10 + k) for k in slots]
+    v1 = [poke(k, 20 + 3 * k) for k in slots]
+    out = []
+    for pre in reads(slots, 0, 1 if quick else 2):
+        for mid in ([CLOSE, OPEN], [START, CLOSE, OPEN], [START, STOP, CLOSE, OPEN], [CLOSE, OPEN, LOAD], [STOP]):
+            for post in reads(slots, 1, 2):
+                for hv in range(6):
+                    head = [OPEN, LOAD] + v0
+                    if hv == 0:
+                        s_ = head + pre + mid
+                    elif hv == 1:
+                        s_ = head + [HOLD] + pre + mid                  # held across the close
+                    elif hv == 2:
+                        s_ = head + pre + [HOLD] + mid
+                    elif hv == 3:
+                        s_ = head + pre + [HOLD, DROP] + mid            # dropped before the close
+                    elif hv == 4:
+                        s_ = [OPEN, HOLD, LOAD] + v0 + pre + [HOLD, HOLD] + mid
+                    else:
+                        s_ = head + [HOLD] + pre + mid[:-1] + [DROP] + mid[-1:]     # dropped after the close
+                    out.append(s_ + v1 + post)
+    return out
+
+
+def masked_sessions(depth):
+    """TLParamsLocked declared as a <MaskedIntReg>: every session up to the depth over the six calls, the other bits of
+    its register set by the device beforehand (0xA0) in every second session"""
+    out = []
+    for i, s_ in enumerate(variant_sessions(LOADM, depth)):
+        out.append(([poke(TL_OTHER, 0xA0)] if i % 2 == 0 else []) + s_)
+    return out
+
+
 def extra_cases(ck):
     rng = Rng(ck.seed)
     quick = ck.tier == "quick"
@@ -684,11 +729,14 @@ def extra_cases(ck):
               [OPEN, LOADC, START, 47, STOP, CLOSE], [OPEN, LOADC, START, 21, STOP, LOADC, STOP, CLOSE],
               [USER + 2], [OPEN, USER], [OPEN, 47, USER + 9], [OPEN, LOADH, 10, CLOSE], [OPEN, LOADH, 11, PARAMS, STOP, PARAMS, CLOSE],
               [OPEN, LOADH, PARAMS, CLOSE, OPEN, PARAMS], [OPEN, LOADA, 10, CLOSE], [OPEN, LOADZ, START, 47, CLOSE],
+              [HOLD], [OPEN, LOAD, HOLD, DROP, CLOSE], [poke(TL_OTHER, 0xA0), OPEN, LOADM, PARAMS, START, PARAMS, CLOSE, PARAMS],
+              [poke(TL_OTHER, 0x50), OPEN, LOADM, START, LOADM, STOP, CLOSE], [OPEN, LOADM, START, LOAD, STOP, CLOSE],
+              [OPEN, LOAD, START, LOADM, PARAMS, CLOSE], [OPEN, LOADM, 10, CLOSE], [OPEN, LOADM, START, poke(TL_OTHER, 0x30), CLOSE],
               [BANK], [OPEN, BANK + 1], [OPEN, 47, BANK + 2], [OPEN, 21, poke(3, 5), BANK + 3, BANK + 3, CLOSE, BANK + 3]):
         cases.append(mk(s))
     # random longer sessions over the extended alphabet with random multi-failure plans
     ext = (ALPHABET * 4 + [10, 11, 19, 21, 23, 29, 32, 38, 46, 47] + [LOADC] * 3 + [BANK + k for k in range(NSLOT)] * 2
-           + [LOADA, LOADH, LOADH, LOADZ, USER, USER + 1, USER + 5])
+           + [LOADA, LOADH, LOADH, LOADZ, USER, USER + 1, USER + 5, LOADM, LOADM, HOLD, DROP])
     n = 2500 if quick else 40000
     for _ in range(n):
         ln = rng.range(3, 12)
@@ -697,10 +745,10 @@ def extra_cases(ck):
         else:
             calls = [rng.choice(ext) if rng.chance(5, 6) else poke(rng.below(NMEM), rng.below(256)) for _ in range(ln)]
         if rng.chance(2, 3):
-            calls = [OPEN, rng.choice([LOADC, LOADH, LOADZ, LOADA]) if rng.chance(1, 3) else LOAD] + calls
+            calls = [OPEN, rng.choice([LOADC, LOADH, LOADZ, LOADA, LOADM]) if rng.chance(1, 3) else LOAD] + calls
         k = rng.choice([0, 1, 1, 2, 2, 3, 5])
         pts = sorted({(rng.below(len(calls)), rng.below(5)) for _ in range(k)})
-        cases.append(mk(calls, [(a, b, rng.below(NCLASS)) for a, b in pts]))
+        cases.append(mk(calls, [(a, b, rng.below(NCLASS)) for a, b in pts], shared=rng.chance(1, 4)))
     return cases
 
 
@@ -877,7 +925,7 @@ def main():
     def classes_for(calls, ci, oi, allc):
         return list(range(NCLASS)) if allc else [(salt_of(calls) + ci + oi) % NCLASS]
 
-    def families(sessions, family, keep=None, focus=False):
+    def families(sessions, family, keep=None, focus=False, shared=False):
         """Each session failure-free and with every single failure point x fault class.  Sessions up to depth
         `all_depth` get EVERY fault class at every failure point, deeper ones one class per point (rotating with
         the session and the point).  Implementation: the failure points are the operations the failure-free run
@@ -889,7 +937,7 @@ def main():
         nfail = 0
         for i in range(0, len(sessions), 4000):
             part = sessions[i:i + 4000]
-            base_cases = [mk(s) for s in part]
+            base_cases = [mk(s, shared=shared) for s in part]
             base_out = ck.run_impl(binary, [c.line for c in base_cases], jobs=JOBS)
             per_session = []
             for calls, c0, o in zip(part, base_cases, base_out):
@@ -900,9 +948,9 @@ def main():
                     for oi in range(r["nops"]):
                         if keep is not None:
                             if keep():
-                                cs.append(mk(calls, [(ci, oi, rng7.below(NCLASS))]))
+                                cs.append(mk(calls, [(ci, oi, rng7.below(NCLASS))], shared=shared))
                         else:
-                            cs.extend(mk(calls, [(ci, oi, k)])
+                            cs.extend(mk(calls, [(ci, oi, k)], shared=shared)
                                       for k in classes_for(calls, ci, oi, allc or (focus and r["atts"][oi] in FOCUS_OPS)))
                 per_session.append(cs)
             flat_cases = [c for cs in per_session for c in cs[1:]]
@@ -941,7 +989,7 @@ def main():
             desc, avail = None, [0, 0]
             for call, r in zip(calls, rs or []):
                 kinds[r["res"]] = kinds.get(r["res"], 0) + 1
-                if call >= 1000 and (call - 1000) // 256 >= AVAIL_START:
+                if call >= 1000 and AVAIL_START <= (call - 1000) // 256 <= AVAIL_STOP:
                     avail[(call - 1000) // 256 - AVAIL_START] = (call - 1000) % 256
                 for e in r["effs"]:
                     if e[0] in (E_ASTART, E_ASTART0, E_ASTOP, E_ASTOP0):
@@ -966,12 +1014,13 @@ def main():
                     key = "start" if r["failed"] == E_COPY1 else "stop / close"
                     copy_stats[key] = copy_stats.get(key, 0) + 1
 
-    def process(specs, family):
+    def process(specs, family, shared=False):
+        """specs: (calls, plan) or (calls, plan, shared)"""
         seen = set()
         for i in range(0, len(specs), 50000):
             cases = []
-            for calls, plan in specs[i:i + 50000]:
-                c = mk(calls, plan)
+            for sp in specs[i:i + 50000]:
+                c = mk(sp[0], sp[1], shared=sp[2] if len(sp) > 2 else shared)
                 if c.line not in seen:
                     seen.add(c.line)
                     cases.append(c)
@@ -1020,6 +1069,23 @@ def main():
     ck.dist["bank_single_failure_cases"] = families(
         bfail, "register bank across close / reopen x single failure (every class at the bank reads)", focus=True)
     ck.phase("bank")
+    # the camera instantiated with the sharable context, a second handle of the context alive across the close or not
+    ssess = shared_sessions(quick)
+    ck.dist["shared_context_sessions"] = len(ssess)
+    process([(s_, ()) for s_ in ssess], "Camera<.., SharedDefaultGenApiCtxt>: bank reads across close / reopen with a second "
+            "handle of the context held / dropped by the application", shared=True)
+    ck.dist["shared_context_single_failure_cases"] = families(
+        variant_sessions(LOAD, 3) + variant_sessions(LOADC, 3) + ssess[::29 if quick else 7],
+        "Camera<.., SharedDefaultGenApiCtxt>: exhaustive depth<=3 (plain / mirror description) + bank sessions x single failure",
+        focus=True, shared=True)
+    ck.phase("shared context")
+    # TLParamsLocked as a <MaskedIntReg>: the read-back of the register is a failure point of its own
+    msess = masked_sessions(cdepth)
+    ck.dist["masked_TLParamsLocked_sessions"] = len(msess)
+    ck.dist["masked_TLParamsLocked_single_failure_cases"] = families(
+        msess, "TLParamsLocked as <MaskedIntReg>: exhaustive depth<=%d x single failure (every class at the read-back)" % cdepth,
+        focus=True)
+    ck.phase("MaskedIntReg")
     other = []
     if not quick:
         rng = rng7
@@ -1030,7 +1096,7 @@ def main():
         ck.dist["depth7_failure_cases_sampled"] = families(deep, "sampled depth 7 x sampled single failure",
                                                            keep=lambda: rng.chance(1, 12))
         ck.phase("depth7")
-    other += [(c.meta["calls"], tuple(c.meta["plan"])) for c in extra_cases(ck)]
+    other += [(c.meta["calls"], tuple(c.meta["plan"]), c.meta["shared"]) for c in extra_cases(ck)]
     process(other, "deep / variants / random multi-failure")
     del other
     ck.phase("deep+random")
